@@ -1,4 +1,5 @@
 import Iec.Drv.C19
+import Iec.Drv.Asdu
 /-
 iecdrv — line-protocol driver: one operation per input line, one canonical result
 line per operation.  The C harnesses execute the same lines on the real code; the
@@ -6,22 +7,29 @@ orchestrator diffs the two output streams.
 -/
 open Iec.Drv
 
-def dispatch (ws : List String) : Option String :=
-  match ws with
-  | [] => some ""
-  | w :: _ =>
-    if w.startsWith "#" then some ""
-    else (Iec.Drv.C19.handle ws)
+structure DrvState where
+  asdu : Iec.Drv.Asdu.St := {}
 
-partial def loop (h : IO.FS.Stream) (out : IO.FS.Stream) : IO Unit := do
+def dispatch (st : DrvState) (ws : List String) : DrvState × String :=
+  match ws with
+  | [] => (st, "")
+  | w :: _ =>
+    if w.startsWith "#" then (st, "")
+    else match Iec.Drv.C19.handle ws with
+      | some s => (st, s)
+      | none =>
+        match Iec.Drv.Asdu.handle st.asdu ws with
+        | some (a, s) => ({ st with asdu := a }, s)
+        | none => (st, "bad-op")
+
+partial def loop (h : IO.FS.Stream) (out : IO.FS.Stream) (st : DrvState) : IO Unit := do
   let line ← h.getLine
   if line.isEmpty then return ()
   let ws := (line.trimAscii.toString.splitOn " ").filter (· ≠ "")
-  match dispatch ws with
-  | some s => out.putStrLn s
-  | none => out.putStrLn "bad-op"
-  loop h out
+  let (st', s) := dispatch st ws
+  out.putStrLn s
+  loop h out st'
 
 def main : IO Unit := do
   let out ← IO.getStdout
-  loop (← IO.getStdin) out
+  loop (← IO.getStdin) out {}
